@@ -239,6 +239,42 @@ BASES = [
 ]
 
 
+def edge_texts(rng):
+    "near-valid files: option lists of the right length with a repeat, boundary candidate counts, boundary seats/ballots"
+    out = []
+    for nc in (255, 256, 257):
+        names = ' '.join('"n%d"' % i for i in range(1, nc + 1))
+        out.append('%d 2 %d %d 1 0 1 %d %d 0 1 2 %d 0 0 %s "big"' % (nc, nc + 5, nc, nc - 1, nc, nc, names))
+        out.append('%d 1 %d 1=%d 2 0 0 %s "big eq"' % (nc, nc + 1, nc, names))
+    for nc in (3, 4):
+        ids = list(range(1, nc + 1))
+        body = ' '.join('%d %s 0' % (2, ' '.join(map(str, rng.sample(ids, rng.randint(1, nc))))) for _ in range(nc)) + ' %d %s 0 0 ' % (nc, ' '.join(map(str, ids)))
+        names = ' '.join('"c%d"' % i for i in ids) + ' "t"'
+        nicks = ['n%s' % chr(96 + i) for i in ids]
+        for _ in range(12):
+            perm = rng.sample(ids, nc)
+            dup = list(perm)
+            dup[rng.randrange(nc)] = dup[(rng.randrange(nc) + 1) % nc] if nc > 1 else dup[0]
+            longer = perm + [rng.choice(ids)]
+            for tie in (perm, dup, perm[:-1], longer):
+                out.append('%d 1 [tie %s] %s %s' % (nc, ' '.join(map(str, tie)), body, names))
+                out.append('%d 1 [nick %s] [tie %s] %s %s' % (nc, ' '.join(nicks), ' '.join(nicks[c - 1] for c in tie), body, names))
+            dn = list(nicks)
+            dn[rng.randrange(nc)] = dn[0]
+            out.append('%d 1 [nick %s] %s %s' % (nc, ' '.join(dn), body, names))
+            w = rng.choice(ids)
+            out.append('%d 1 [withdrawn %d %d] %s %s' % (nc, w, w, body, names))
+            out.append('%d 1 -%d [withdrawn %d] %s %s' % (nc, w, w, body, names))
+            out.append('%d 1 [undeclared %d %d] %s %s' % (nc, w, rng.choice(ids), body, names))
+            out.append('%d 1 [withdrawn %d] %s %s' % (nc, nc + 1, body, names))
+            out.append('%d %d %s %s' % (nc, rng.choice([0, nc, nc + 1]), body, names))
+            out.append('%d 1 -%d %d %d 0 0 %s' % (nc, w, 1, w, names))
+            out.append('%d 1 (a) 1 0 (a) 2 0 (b) %s 0 0 %s' % (nc, ' '.join(map(str, ids)), names))
+            out.append('%d 1 2 1 1 0 %s %s' % (nc, body, names))
+            out.append('%d 1 2 1=1 2 0 %s %s' % (nc, body, names))
+    return out
+
+
 def fuzz_texts(rng, n):
     out = []
     for base in BASES:
